@@ -485,4 +485,21 @@ pub async fn plan_compaction(""", expect="mutator:dataset::optimize::drop_old_fi
     dict(name="c43_arrow_nullable", prop="C43", file=FIELD, what="Field -> ArrowField always nullable",
          old="        let out = Self::new(&field.name, field.data_type(), field.nullable);",
          new="        let out = Self::new(&field.name, field.data_type(), true);", expect="to-arrow:nullable"),
+    # ------------------------------------------------------------------ later rules
+    dict(name="c32_tag_always_some", prop="C32", file="rust/lance-table/src/format/manifest.rs", what="Manifest.tag decoded as Some(\"\") when none was written",
+         old="            tag: if p.tag.is_empty() { None } else { Some(p.tag) },", new="            tag: Some(p.tag),",
+         expect="TABLE-default-is-none|Manifest.tag"),
+    dict(name="c38_load_under_current_uri", prop="C38", file="rust/lance/src/dataset.rs", what="checkout of another branch caches the manifest's index section under the current branch's URI",
+         old="            &manifest_location,\n            &new_location.uri,", new="            &manifest_location,\n            &self.uri,",
+         expect="AGREE-load-scope"),
+    dict(name="c36_prefix_undelimited", prop="C36", file="rust/lance-namespace-impls/src/dir/manifest.rs", what="drop_namespace's child scan uses the bare id as prefix",
+         old='        let prefix = format!("{}{}", object_id, DELIMITER);', new='        let prefix = format!("{}", object_id);',
+         expect="TABLE-prefix-delimited"),
+    dict(name="c19_bitmap_range_unguarded", prop="C19", file="rust/lance-index/src/scalar/bitmap.rs", what="the bitmap index hands an inverted range to BTreeMap::range again",
+         old="                let keys: Vec<_> = if empty_range {", new="                let keys: Vec<_> = if false {",
+         expect="DOM-range-call-guarded"),
+    dict(name="c22_shortcut_ignores_block_list", prop="C22", file="rust/lance/src/io/exec/knn.rs", what="late_search's shortcut walks the allow list only",
+         old="                    if let Some(iter_ids) = prefilter_mask.iter_ids() {",
+         new="                    if let Some(iter_ids) = prefilter_mask.allow_list.as_ref().and_then(|a| a.row_ids()) {",
+         expect="INV-mask-whole"),
 ]
